@@ -413,12 +413,15 @@ func ChanLen(ch any) int { return reflectLen(ch) }
 // LibExited reports whether every library goroutine has returned.
 func LibExited() bool { return nativeLibExited() }
 
+// AllLibExited is LibExited including goroutines declared as daemons.
+func AllLibExited() bool { daemonOK = false; defer func() { daemonOK = true }(); return nativeLibExited() }
+
 // Exited reports whether the named environment goroutine has returned.
 func Exited(name string) bool { return nativeExited(name) }
 
 // Daemon declares library goroutines started by functions with this name prefix
 // as permitted to outlive the run (e.g. a pacer that lives until cancel).
-func Daemon(prefix string) {}
+func Daemon(prefix string) { daemonOK = true }
 
 // Now is the virtual clock.
 func Now() int { return nativeNow() }
